@@ -439,3 +439,209 @@ func (in *Interp) declareChecksum() {
 	in.D.declareFun("checksum", []string{SStr, SInt}, SStr)
 	in.D.declareOnce("checksum_len", "(assert (forall ((s Str) (n Int)) (! (=> (>= n 0) (= (slen (checksum s n)) n)) :pattern ((checksum s n)))))")
 }
+
+// ---------- ghost model of avalanchego database.Database / Batch ----------
+//
+// A database value (interface term d) owns a ghost map cell dbmap(d): string -> []byte.
+// Get/Has/Put/Delete act on it directly; a Batch collects Put/Delete operations and
+// applies them, in order, on Write.  dbhealthy(d) (uninterpreted) means: the store
+// does not fail -- every write succeeds and Get fails only with ErrNotFound for an
+// absent key.  Without it a failing call returns an arbitrary non-nil error and
+// (for writes) has no effect.
+
+type BatchV struct {
+	DB  *Cell
+	D   Term
+	Ops []batchOp
+}
+
+type batchOp struct {
+	del  bool
+	k, v Term
+}
+
+var dbMapType = types.NewMap(types.Typ[types.String], types.NewSlice(types.Typ[types.Byte]))
+
+func (in *Interp) dbCell(d Term) *Cell {
+	if in.dbCells == nil {
+		in.dbCells = map[string]*Cell{}
+	}
+	if c, ok := in.dbCells[d.S]; ok {
+		return c
+	}
+	c := in.newCell("db("+trunc(d.S, 24)+")", CMap, dbMapType)
+	in.dbCells[d.S] = c
+	return c
+}
+
+func (in *Interp) dbHealthy(d Term) Term {
+	in.D.declareSort("Iface")
+	in.D.declareFun("dbhealthy", []string{"Iface"}, SBool)
+	return App("dbhealthy", SBool, d)
+}
+
+func dbTermOf(v Val, f *Frame, pos ast.Node) Term {
+	if sc, ok := v.(Sc); ok && sc.T.Sort == "Iface" {
+		return sc.T
+	}
+	f.in.unsupported(pos.Pos(), "database receiver is %T (expected an interface value)", v)
+	return Term{}
+}
+
+func (f *Frame) dbGet(d Term, key Val, st *State) (Val, Term) {
+	in := f.in
+	c := in.dbCell(d)
+	mc := in.load(st, c, f).(MapC)
+	k := f.strOfSlice(key, st)
+	has := Select(mc.Has, k)
+	e := in.D.fresh("dberr", SErr)
+	nf := in.errSentinel("github.com/ava-labs/avalanchego/database.ErrNotFound")
+	healthy := in.dbHealthy(d)
+	st.assume(Implies(healthy, Ite(has, Eq(e, in.errNil()), Eq(e, nf))))
+	st.assume(Implies(Eq(e, in.errNil()), has))
+	val := in.thawFresh(Select(mc.Val, k), st).(SliceV)
+	// on error the returned slice is nil/empty
+	res := in.D.fresh("dbval_len", SInt)
+	st.assume(Ite(Eq(e, in.errNil()), Eq(res, val.Len), Eq(res, IntLit(0))))
+	out := SliceV{Reg: val.Reg, Off: IntLit(0), Len: res, Cap: res, Nil: Not(Eq(e, in.errNil()))}
+	if res.S != val.Len.S {
+		delete(in.frozenOf, val.Reg)
+		// keep the link to the stored string when the read succeeded
+		st.assume(Implies(Eq(e, in.errNil()), Eq(App("mkstr", SStr, in.regionContent(st, out.Reg, f), IntLit(0), res), Select(mc.Val, k))))
+	}
+	return out, e
+}
+
+func (f *Frame) dbApply(c *Cell, op batchOp, st *State) {
+	in := f.in
+	mc := in.load(st, c, f).(MapC)
+	if op.del {
+		st.store[c] = MapC{Has: f.nameIt(st, "dbhas", Store(mc.Has, op.k, TFalse)), Val: mc.Val,
+			Card: f.nameIt(st, "dbcard", Ite(Select(mc.Has, op.k), Sub(mc.Card, IntLit(1)), mc.Card))}
+		return
+	}
+	st.store[c] = MapC{Has: f.nameIt(st, "dbhas", Store(mc.Has, op.k, TTrue)), Val: f.nameIt(st, "dbval", Store(mc.Val, op.k, op.v)),
+		Card: f.nameIt(st, "dbcard", Ite(Select(mc.Has, op.k), mc.Card, Add(mc.Card, IntLit(1))))}
+}
+
+// writeResult: error term of a write on database d; nil when healthy.
+func (f *Frame) dbWriteErr(d Term, st *State) Term {
+	in := f.in
+	e := in.D.fresh("dbwerr", SErr)
+	st.assume(Implies(in.dbHealthy(d), Eq(e, in.errNil())))
+	return e
+}
+
+func init() {
+	const db = "github.com/ava-labs/avalanchego/database."
+	get := func(f *Frame, call *ast.CallExpr, recv Val, args []Val, st *State) []Val {
+		d := dbTermOf(recv, f, call)
+		v, e := f.dbGet(d, args[0], st)
+		f.in.note("database.Database modelled as a ghost map (Get/Has/Put/Delete/Batch); dbhealthy(d) = the store does not fail")
+		return []Val{v, Sc{e}}
+	}
+	has := func(f *Frame, call *ast.CallExpr, recv Val, args []Val, st *State) []Val {
+		in := f.in
+		d := dbTermOf(recv, f, call)
+		mc := in.load(st, in.dbCell(d), f).(MapC)
+		e := f.dbWriteErr(d, st)
+		return []Val{Sc{Select(mc.Has, f.strOfSlice(args[0], st))}, Sc{e}}
+	}
+	put := func(f *Frame, call *ast.CallExpr, recv Val, args []Val, st *State) []Val {
+		if p, ok := recv.(PtrV); ok { // batch
+			b := f.in.load(st, p.To, f).(BatchV)
+			nb := BatchV{DB: b.DB, D: b.D, Ops: append(append([]batchOp(nil), b.Ops...), batchOp{k: f.strOfSlice(args[0], st), v: f.strOfSlice(args[1], st)})}
+			st.store[p.To] = nb
+			return []Val{Sc{f.dbWriteErr(b.D, st)}}
+		}
+		d := dbTermOf(recv, f, call)
+		e := f.dbWriteErr(d, st)
+		ok := st.clone()
+		_ = ok
+		// effect happens iff no error: model with ite on the map components
+		c := f.in.dbCell(d)
+		before := f.in.load(st, c, f).(MapC)
+		f.dbApply(c, batchOp{k: f.strOfSlice(args[0], st), v: f.strOfSlice(args[1], st)}, st)
+		after := f.in.load(st, c, f).(MapC)
+		isOK := Eq(e, f.in.errNil())
+		st.store[c] = MapC{Has: Ite(isOK, after.Has, before.Has), Val: Ite(isOK, after.Val, before.Val), Card: Ite(isOK, after.Card, before.Card)}
+		return []Val{Sc{e}}
+	}
+	del := func(f *Frame, call *ast.CallExpr, recv Val, args []Val, st *State) []Val {
+		if p, ok := recv.(PtrV); ok {
+			b := f.in.load(st, p.To, f).(BatchV)
+			nb := BatchV{DB: b.DB, D: b.D, Ops: append(append([]batchOp(nil), b.Ops...), batchOp{del: true, k: f.strOfSlice(args[0], st)})}
+			st.store[p.To] = nb
+			return []Val{Sc{f.dbWriteErr(b.D, st)}}
+		}
+		d := dbTermOf(recv, f, call)
+		e := f.dbWriteErr(d, st)
+		c := f.in.dbCell(d)
+		before := f.in.load(st, c, f).(MapC)
+		f.dbApply(c, batchOp{del: true, k: f.strOfSlice(args[0], st)}, st)
+		after := f.in.load(st, c, f).(MapC)
+		isOK := Eq(e, f.in.errNil())
+		st.store[c] = MapC{Has: Ite(isOK, after.Has, before.Has), Val: Ite(isOK, after.Val, before.Val), Card: Ite(isOK, after.Card, before.Card)}
+		return []Val{Sc{e}}
+	}
+	for _, recvName := range []string{"KeyValueReader", "Database", "KeyValueReaderWriter", "KeyValueReaderWriterDeleter"} {
+		externs[db+recvName+".Get"] = get
+		externs[db+recvName+".Has"] = has
+	}
+	for _, recvName := range []string{"KeyValueWriter", "Database", "Batch", "KeyValueReaderWriter", "KeyValueWriterDeleter", "KeyValueReaderWriterDeleter"} {
+		externs[db+recvName+".Put"] = put
+	}
+	for _, recvName := range []string{"KeyValueDeleter", "Database", "Batch", "KeyValueWriterDeleter", "KeyValueReaderWriterDeleter"} {
+		externs[db+recvName+".Delete"] = del
+	}
+	newBatch := func(f *Frame, call *ast.CallExpr, recv Val, args []Val, st *State) []Val {
+		d := dbTermOf(recv, f, call)
+		c := f.in.newCell("batch", CVar, nil)
+		st.store[c] = BatchV{DB: f.in.dbCell(d), D: d}
+		return []Val{PtrV{To: c, Nil: TFalse}}
+	}
+	externs[db+"Batcher.NewBatch"] = newBatch
+	externs[db+"Database.NewBatch"] = newBatch
+	externs[db+"Batch.Write"] = func(f *Frame, call *ast.CallExpr, recv Val, args []Val, st *State) []Val {
+		p := recv.(PtrV)
+		b := f.in.load(st, p.To, f).(BatchV)
+		e := f.dbWriteErr(b.D, st)
+		before := f.in.load(st, b.DB, f).(MapC)
+		for _, op := range b.Ops {
+			f.dbApply(b.DB, op, st)
+		}
+		after := f.in.load(st, b.DB, f).(MapC)
+		isOK := Eq(e, f.in.errNil())
+		// atomic: either the whole write set is applied or nothing
+		st.store[b.DB] = MapC{Has: f.nameIt(st, "dbhas", Ite(isOK, after.Has, before.Has)), Val: f.nameIt(st, "dbval", Ite(isOK, after.Val, before.Val)), Card: Ite(isOK, after.Card, before.Card)}
+		f.in.note("database.Batch: Put/Delete are collected and applied atomically, in order, by Write")
+		return []Val{Sc{e}}
+	}
+	externs[db+"ParseUInt64"] = func(f *Frame, call *ast.CallExpr, recv Val, args []Val, st *State) []Val {
+		in := f.in
+		b := args[0].(SliceV)
+		r := in.D.fresh("parseu64", SInt)
+		e := in.D.fresh("parseu64_err", SErr)
+		arr := in.regionContent(st, b.Reg, f)
+		st.assume(Ite(Eq(b.Len, IntLit(8)), And(Eq(e, in.errNil()), Eq(r, be(arr, b.Off, 8))), And(Not(Eq(e, in.errNil())), Eq(r, IntLit(0)))))
+		st.assume(inRange(r, types.Typ[types.Uint64]))
+		return []Val{Sc{r}, Sc{e}}
+	}
+	externs["errors.Join"] = func(f *Frame, call *ast.CallExpr, recv Val, args []Val, st *State) []Val {
+		in := f.in
+		sl := args[0].(SliceV)
+		if !sl.Len.IsLit() {
+			in.unsupported(call.Pos(), "errors.Join with a non-literal argument list")
+		}
+		content := in.regionContent(st, sl.Reg, f)
+		e := in.D.fresh("joined", SErr)
+		var allNil []Term
+		for i := int64(0); i < sl.Len.lit.Int64(); i++ {
+			ei := Select(content, Add(sl.Off, IntLit(i)))
+			allNil = append(allNil, Eq(ei, in.errNil()))
+			st.assume(Implies(Not(Eq(ei, in.errNil())), Or(Eq(e, ei), App("err_wraps", SBool, e, ei))))
+		}
+		st.assume(Eq(Eq(e, in.errNil()), And(allNil...)))
+		return []Val{Sc{e}}
+	}
+}
